@@ -2,7 +2,7 @@
 
 SERVER_RULE = (
     "server engine: a real dht.Server on a fake PacketConn driven through generated event histories (scenarios table / "
-    "methods / tokens / peers / queries / blocklist / misc / budget / bep44 / collide: peers' own queries carrying our outstanding transaction ids / tokens and methods over the configuration lattice peer store x announce hook x WaitToReply x query hook / peershook: a blocking OnAnnouncePeer hook released by the history / peerfam: get_peers over stored-peer families x requester address form x want x table families); after EVERY event the datagrams written, "
+    "methods / tokens / peers / queries / blocklist / misc / budget / bep44 / collide: peers' own queries carrying our outstanding transaction ids / tokens and methods over the configuration lattice peer store x announce hook x WaitToReply x query hook / peershook: a blocking OnAnnouncePeer hook released by the history / peerfam: get_peers over stored-peer families x requester address form x want x table families / autoid: table, peerfam, methods with ServerConfig.NodeId unset x PublicIP x NoSecurity, root = Server.ID() / roresp + rodirected: ro flag on responses and errors / intargs: port, implied_port, noseed, scrape, seq, cas and reply integers at and beyond their ranges, read back by get_peers of both families and get / putreject: every return path of put and get followed by more queries); after EVERY event the datagrams written, "
     "callbacks, peer-store calls, query completions, the routing-table snapshot (hook) and API counters are compared with "
     "the extracted model's step on the same event (relational where Go leaves a choice: eviction victim, node-list "
     "members/order, values order, transaction id); a case line is distinct by its full event text incl. its history "
